@@ -245,6 +245,64 @@ type query struct {
 	goal    *Term
 	as0, as []*Term
 	result  solveResult
+	confirm string // thorough tier: outcome of the second-solver run
+}
+
+// confirmQueries (thorough tier): every query that was discharged is decided again by a solver of a
+// different family (z3 <-> cvc5) on the same form of the query, 10 s each, 120 s per function.
+// A second `unsat` confirms; a `sat` on the full (non-instantiated) query contradicts the first
+// solver and is reported as an engine fault; anything else leaves the query unconfirmed.
+func confirmQueries(queries []*query) {
+	var wg sync.WaitGroup
+	slots := make(chan struct{}, 12)
+	// the whole confirmation pass of one function gets a wall-clock budget; what is not reached
+	// stays "unconfirmed" (reported, not an alarm)
+	deadline := time.Now().Add(120 * time.Second)
+	for _, q := range queries {
+		q := q
+		if q.result.verdict != "unsat" || q.result.solver == "simplifier" {
+			if q.result.verdict == "unsat" {
+				q.confirm = "confirmed"
+			}
+			continue
+		}
+		wg.Add(1)
+		slots <- struct{}{}
+		go func() {
+			defer wg.Done()
+			defer func() { <-slots }()
+			inst := strings.Contains(q.result.solver, "ground instances") && q.as0 != nil
+			var order []solverDef
+			switch {
+			case strings.HasPrefix(q.result.solver, "cvc5"):
+				order = []solverDef{solvers[0], solvers[2]}
+			case strings.HasPrefix(q.result.solver, "z3-4.8.12"):
+				order = []solverDef{solvers[3], solvers[0]}
+			default:
+				order = []solverDef{solvers[3], solvers[2]}
+			}
+			as := q.as
+			if inst {
+				as = q.as0
+			}
+			q.confirm = "unconfirmed"
+			for _, sd := range order[:1] {
+				if time.Now().After(deadline) {
+					return
+				}
+				r := runSolverIn(context.Background(), racerSem, sd, Script(as, ScriptOpts{Cvc5: sd.cvc5}), 10)
+				if r.verdict == "unsat" {
+					q.confirm = "confirmed"
+					return
+				}
+				if r.verdict == "sat" && !inst {
+					q.confirm = "CONTRADICTED by " + sd.name + " (sat) after " + q.result.solver + " answered unsat"
+					return
+				}
+			}
+		}()
+	}
+	wg.Wait()
 }
 
 // buildQueries (sequential: creates terms) decomposes the goal of an obligation and prepares, for
@@ -547,6 +605,20 @@ func solveAll(obls []*Obligation, cands []*Candidate, tier string, expectSat boo
 		byObl[o] = qs
 	}
 	runQueries(queries, tier, expectSat)
+	if tier == "thorough" && !expectSat {
+		confirmQueries(queries)
+		for o, qs := range byObl {
+			o.Confirm = "confirmed"
+			for _, q := range qs {
+				switch {
+				case strings.HasPrefix(q.confirm, "CONTRADICTED"):
+					o.Confirm = q.confirm
+				case q.confirm != "confirmed" && o.Confirm == "confirmed":
+					o.Confirm = "unconfirmed"
+				}
+			}
+		}
+	}
 	for o, qs := range byObl {
 		o.Verdict = "unsat"
 		for qi, q := range qs {
